@@ -1209,3 +1209,242 @@ func checkMiddlewareLeavesHeadersAlone(c *report.Ctx) {
 	}
 	c.Check("R-NOEFFECT", "L/rapi/middleware/writes-no-header-value", "no middleware stores into an element of a []string (header value lists are shared with the request the handlers read)", len(bad) == 0 && n >= 5, pos, n, "middleware functions: %d; storing into string slices: %v", n, uniq(bad))
 }
+
+func init() {
+	add := func(id string, fs ...func(*report.Ctx)) { round5Rules[id] = append(round5Rules[id], fs...) }
+	add("C01", checkRenderersSetHeadersBeforeStatus)
+	add("C09", checkShutdownEventRenderedAsGiven)
+	add("C06", checkExitWatcherStraight, checkErrorPayloadSentAsGiven)
+	add("C19", checkExitWatcherStraight, checkSupervisorClosesNothing, checkChildLogsGoToTheFile)
+	add("C08", checkSupervisorClosesNothing)
+	add("C20", checkErrorPayloadSentAsGiven)
+}
+
+var _ = func() bool {
+	for id, t := range map[string]string{
+		"C01": "the renderers set every header before the status line is written.",
+		"C09": "the SHUTDOWN event is rendered exactly as the teardown composed it.",
+		"C06": "the exit watcher goes from Wait to the termination signal and the event without a loop; an error response's payload is sent as given.",
+		"C19": "the exit watcher is loop-free; the supervisor closes nothing it was handed; child output goes to the emulator's stdout file itself.",
+		"C08": "the supervisor closes nothing it was handed (the log sinks are shared by every generation).",
+		"C20": "an error response's payload is relayed as given (an empty body stays empty).",
+	} {
+		round5Text[id] += " Round 11: " + t
+	}
+	return true
+}()
+
+// checkRenderersSetHeadersBeforeStatus (C01): net/http sends the header block with WriteHeader; a header set afterwards
+// is silently dropped on a real connection (the recorder used by tests shows it). In package rendering no Header.Set/
+// Add can follow a WriteHeader on any path of a function.
+func checkRenderersSetHeadersBeforeStatus(c *report.Ctx) {
+	n := 0
+	var bad []string
+	pos := token.NoPos
+	inPkg := func(f *ssa.Function) bool {
+		top := f
+		for top.Parent() != nil {
+			top = top.Parent()
+		}
+		return top.Pkg != nil && load.Abbrev(top.Pkg.Pkg.Path()) == "L/rapi/rendering"
+	}
+	// functions of the package that write the status line, directly or through another one of them
+	writes := map[*ssa.Function]bool{}
+	for changed := true; changed; {
+		changed = false
+		for _, f := range repoFuncs(c) {
+			if !inPkg(f) || writes[f] {
+				continue
+			}
+			hit := len(an.CallsTo(f, "net/http.ResponseWriter.WriteHeader")) > 0
+			an.AllInstrs(f, func(in ssa.Instruction) {
+				if call, ok := in.(*ssa.Call); ok {
+					if callee := call.Common().StaticCallee(); callee != nil && writes[callee] {
+						hit = true
+					}
+				}
+			})
+			if hit {
+				writes[f] = true
+				changed = true
+			}
+		}
+	}
+	for _, f := range repoFuncs(c) {
+		if !inPkg(f) {
+			continue
+		}
+		sets := an.CallsTo(f, "net/http.Header.Set", "net/http.Header.Add")
+		if len(sets) == 0 {
+			continue
+		}
+		ord := an.NewOrder(f, func(in ssa.Instruction) uint64 {
+			if an.IsCallTo(in, "net/http.ResponseWriter.WriteHeader") {
+				return 1
+			}
+			if call, ok := in.(*ssa.Call); ok {
+				if callee := call.Common().StaticCallee(); callee != nil && writes[callee] {
+					return 1
+				}
+			}
+			return 0
+		})
+		for _, s := range sets {
+			n++
+			if _, may := ord.Before(s); may&1 != 0 {
+				bad = append(bad, an.FuncName(f))
+				if pos == token.NoPos {
+					pos = an.InstrPos(s)
+				}
+			}
+		}
+	}
+	c.Check("R-ORDER", "L/rapi/rendering/headers-before-status", "in the renderers every header is set before WriteHeader (a header set after the status line never reaches the runtime)", len(bad) == 0 && n >= 8, pos, n, "header writes: %d; possibly after WriteHeader in: %v", n, uniq(bad))
+}
+
+// checkShutdownEventRenderedAsGiven (C09): the SHUTDOWN event an extension receives carries the reason and deadline
+// the teardown put into it; the renderer serialises its record and changes none of it.
+func checkShutdownEventRenderedAsGiven(c *report.Ctx) {
+	f := fn(c, "L/rapi/rendering", "(*ShutdownRenderer).RenderAgentEvent")
+	if f == nil {
+		return
+	}
+	var stores []string
+	for _, g := range an.WithAnon(f) {
+		an.AllInstrs(g, func(in ssa.Instruction) {
+			if st, ok := in.(*ssa.Store); ok {
+				if fr, ok := an.AsField(st.Addr); ok && (fr.Struct == "L/rapi/model.AgentShutdownEvent" || fr.Struct == "L/rapi/model.AgentEvent" || fr.Struct == "L/rapi/rendering.ShutdownRenderer") {
+					stores = append(stores, fr.Struct+"."+fr.Field)
+				}
+			}
+		})
+	}
+	okArg := false
+	for _, call := range an.CallsTo(f, "encoding/json.Marshal") {
+		if mi, isMI := call.Common().Args[0].(*ssa.MakeInterface); isMI {
+			okArg = an.IsFieldLoad(an.Strip(mi.X, true), "L/rapi/rendering.ShutdownRenderer", "AgentEvent")
+		}
+	}
+	c.Check("R-WIRE", an.FuncName(f)+"/event-as-composed", "the SHUTDOWN event is the renderer's record serialised as it is (reason and deadline as the teardown gave them)", len(stores) == 0 && okArg, fpos(f), 1, "fields assigned in the renderer: %v; json.Marshal of s.AgentEvent itself: %v", stores, okArg)
+}
+
+// checkExitWatcherStraight (C06, C19): after cmd.Wait returned the watcher signals the termination and emits the event
+// at once: no loop and no sleep stands in between (a wait for the whole process group to drain holds back the news of
+// a runtime that exited but left a child behind - the invocation then hangs until its timeout).
+func checkExitWatcherStraight(c *report.Ctx) {
+	f := fn(c, "L/supervisor", "(*LocalSupervisor).Exec$1")
+	if f == nil {
+		return
+	}
+	loops := 0
+	an.AllInstrs(f, func(in ssa.Instruction) {
+		if _, isJ := in.(*ssa.Jump); isJ && an.InLoop(in) {
+			loops++
+		}
+		if _, isI := in.(*ssa.If); isI && an.InLoop(in) {
+			loops++
+		}
+	})
+	sl := len(an.CallsTo(f, "time.Sleep")) + len(an.CallsTo(f, "syscall.Kill"))
+	c.Check("R-SHAPE", an.FuncName(f)+"/no-loop-no-sleep", "the exit watcher is straight-line from Wait to the termination signal and the event: it neither loops nor sleeps nor probes processes", loops == 0 && sl == 0, fpos(f), 1, "branches inside a cycle: %d; Sleep/Kill calls: %d", loops, sl)
+}
+
+// checkSupervisorClosesNothing (C19, C08): the writers an exec request carries belong to the caller (the emulator hands
+// out its own stdout for every process of every generation): the supervisor calls Close on nothing.
+func checkSupervisorClosesNothing(c *report.Ctx) {
+	var who []string
+	n := 0
+	all := append([]*ssa.Function(nil), repoFuncs(c)...)
+	for g := range c.P.Absorbed {
+		all = append(all, g)
+	}
+	sort.Slice(all, func(i, j int) bool { return all[i].String() < all[j].String() })
+	for _, f := range all {
+		top := f
+		for top.Parent() != nil {
+			top = top.Parent()
+		}
+		if top.Pkg == nil || load.Abbrev(top.Pkg.Pkg.Path()) != "L/supervisor" {
+			continue
+		}
+		n++
+		for _, call := range an.Calls(f, func(s string) bool { return strings.HasSuffix(s, ".Close") }) {
+			who = append(who, an.FuncName(f)+": "+an.Callee(call))
+		}
+	}
+	c.Check("R-WHO", "L/supervisor/closes-nothing", "the local supervisor closes nothing (the log sinks it is handed are the emulator's own and outlive every process)", len(who) == 0 && n >= 5, token.NoPos, n, "functions: %d; Close calls: %v", n, uniq(who))
+}
+
+// checkChildLogsGoToTheFile (C19): os/exec hands an *os.File straight to the child; any other io.Writer gets a pipe and
+// a copying goroutine, and Wait then returns only when every descendant holding the pipe has exited - the exit event
+// of a process that left a child behind would be held back. The emulator's log sinks are os.Stdout itself.
+func checkChildLogsGoToTheFile(c *report.Ctx) {
+	n, ok := 0, true
+	pos := token.NoPos
+	for _, name := range []string{"(*NoOpLogsEgressAPI).GetExtensionSockets", "(*NoOpLogsEgressAPI).GetRuntimeSockets"} {
+		f := fn(c, "L/telemetry", name)
+		if f == nil {
+			continue
+		}
+		for _, e := range an.Exits(f) {
+			for i := 0; i < 2 && i < len(e.Vals); i++ {
+				n++
+				mi, isMI := e.Vals[i].(*ssa.MakeInterface)
+				if !isMI || an.GlobalOf(mi.X) != "os.Stdout" {
+					ok = false
+					if pos == token.NoPos {
+						pos = an.InstrPos(e.Ret)
+					}
+				}
+			}
+		}
+	}
+	c.Check("R-WIRE", "L/telemetry.NoOpLogsEgressAPI/sinks-are-the-stdout-file", "the log sinks handed to child processes are os.Stdout itself (a file goes to the child directly; a wrapper would make Wait depend on every descendant)", ok && n == 4, pos, n, "results checked: %d; each os.Stdout: %v", n, ok)
+}
+
+// checkErrorPayloadSentAsGiven (C06, C20): SendErrorResponse relays resp.Payload - an empty body stays empty (the
+// status-only answer to a fault the runtime never reported), a body is not replaced.
+func checkErrorPayloadSentAsGiven(c *report.Ctx) {
+	f := fn(c, rapidcP, "(*Server).SendErrorResponse")
+	if f == nil {
+		return
+	}
+	n, ok := 0, true
+	pos := fpos(f)
+	for _, call := range an.CallsTo(f, srvT+".sendResponseUnsafe") {
+		args := call.Common().Args
+		if len(args) < 4 {
+			continue
+		}
+		n++
+		good := false
+		if cl, _ := an.CallOf(args[3]); cl != nil && an.Callee(cl) == "bytes.NewReader" {
+			good = an.IsFieldLoad(an.Strip(cl.Call.Args[0], true), "L/interop.ErrorInvokeResponse", "Payload")
+		} else if mi, isMI := args[3].(*ssa.MakeInterface); isMI {
+			if cl, _ := an.CallOf(mi.X); cl != nil && an.Callee(cl) == "bytes.NewReader" {
+				good = an.IsFieldLoad(an.Strip(cl.Call.Args[0], true), "L/interop.ErrorInvokeResponse", "Payload")
+			}
+		}
+		if !good {
+			ok = false
+			pos = an.InstrPos(call)
+		}
+	}
+	c.Check("R-WIRE", an.FuncName(f)+"/payload-as-given", "the error response's body handed to the reply sink is resp.Payload itself", ok && n == 1, pos, n, "sink calls: %d; body = bytes.NewReader(resp.Payload): %v", n, ok)
+}
+
+// rules that reported a round-10 seed through a sibling property only
+func init() {
+	add := func(id string, fs ...func(*report.Ctx)) { round5Rules[id] = append(round5Rules[id], fs...) }
+	runtimeAutomaton := func(c *report.Ctx) {
+		spec := runtimeFSM()
+		checkFSM(c, spec, extractFSM(c, spec))
+	}
+	add("C01", checkHandlersReplyOnce)
+	add("C05", checkGatePrimitive)
+	add("C06", checkShutdownTop, runtimeAutomaton)
+	add("C08", runtimeAutomaton)
+	add("C07", checkOnlyOwnMiddleware)
+	add("C09", checkSingleAcquisition)
+	add("C18", func(c *report.Ctx) { checkPrecedence(c, layerKeySets(c)) })
+}
